@@ -1,6 +1,251 @@
-//! cache-stress: placeholder (filled in below once the sequential driver is solid).
+//! cache-stress: free-running threads on one unbounded cache without expiry (nothing may be
+//! forgotten), released together by a barrier.  Every call is logged with a global sequence
+//! (`call` before it starts, `ret` after it returned); the history is validated by TLC with
+//! silent linearization steps (specs/cache/CacheStressTrace.tla): every key must behave as an
+//! atomic register, no compute increment may be lost, or_insert must insert at most once.
+//!
+//! The result of a call is also copied into its `call` record (a prophecy field filled in
+//! after the round), so that the trace spec can apply the Layer A outcome operator of the
+//! call at its linearization point; the `ret` record still has to come, in order.
+
+use crate::rt::*;
+use fibre_cache::error::ComputeResult;
+use fibre_cache::{Cache, CacheBuilder};
+use parking_lot::Mutex;
+use rand::rngs::StdRng;
+use rand::{Rng, SeedableRng};
+use serde_json::{json, Value};
 use std::collections::HashMap;
-pub fn run(_m: &HashMap<String, String>) {
-  eprintln!("cache-stress: not implemented");
-  std::process::exit(2);
+use std::io::Write;
+use std::sync::atomic::{AtomicBool, AtomicU32, Ordering};
+use std::sync::{Arc, Barrier};
+use std::time::{Duration, Instant};
+
+type C = Cache<u32, Val, FixedState>;
+
+struct Log {
+  recs: Mutex<Vec<Value>>,
+  next_o: AtomicU32,
+  next_w: AtomicU32,
+}
+
+impl Log {
+  fn call(&self, th: usize, mut rec: Value) -> u32 {
+    let o = self.next_o.fetch_add(1, Ordering::SeqCst) + 1;
+    let m = rec.as_object_mut().unwrap();
+    m.insert("k".into(), json!("call"));
+    m.insert("o".into(), json!(o));
+    m.insert("th".into(), json!(th));
+    self.recs.lock().push(rec);
+    o
+  }
+  fn ret(&self, o: u32, res: Value) {
+    self.recs.lock().push(json!({"k":"ret","o":o,"p":res}));
+  }
+}
+
+fn pairv(v: &Option<Arc<Val>>) -> Value {
+  match v {
+    Some(v) => json!([v.wid, v.n]),
+    None => json!([0, 0]),
+  }
+}
+
+fn worker(cache: C, log: Arc<Log>, th: usize, seed: u64, keys: u32, ops: usize) {
+  let mut rng = StdRng::seed_from_u64(seed);
+  let ac = cache.to_async();
+  for _ in 0..ops {
+    let k = rng.random_range(1..=keys);
+    let a = rng.random_bool(0.3);
+    let h = if a { "a" } else { "s" };
+    match rng.random_range(0..100) {
+      0..=29 => {
+        // read-modify-write
+        let api = if rng.random_bool(0.7) { "compute_val" } else { "try_compute_val" };
+        let o = log.call(th, json!({"op":"comp","api":api,"h":h,"key":k,"hasval":true}));
+        let f = |v: &mut Val| {
+          v.n += 1;
+          (v.wid, v.n)
+        };
+        let r = match (api, a) {
+          ("compute_val", false) => cache.compute_val(&k, f),
+          ("compute_val", true) => block_on(ac.compute_val(&k, f)),
+          (_, false) => cache.try_compute_val(&k, f),
+          (_, true) => block_on(ac.try_compute_val(&k, f)),
+        };
+        let p = match r {
+          ComputeResult::Ok((w, n)) => json!({"res":"ok","val":[w, n]}),
+          ComputeResult::Fail => json!({"res":"fail","val":[0, 0]}),
+          ComputeResult::NotFound => json!({"res":"nf","val":[0, 0]}),
+        };
+        log.ret(o, p);
+      }
+      30..=49 => {
+        let w = log.next_w.fetch_add(1, Ordering::SeqCst) + 1;
+        let o = log.call(th, json!({"op":"ent","api":"or_insert_with","h":h,"key":k,"wid":w,"cost":1,"lazy":true}));
+        let called = AtomicBool::new(false);
+        let mk = || {
+          called.store(true, Ordering::SeqCst);
+          Val { wid: w, n: 0 }
+        };
+        let r = if a { block_on(ac.entry(k)).or_insert_with(mk, 1) } else { cache.entry(k).or_insert_with(mk, 1) };
+        let p = json!({"res":[r.wid, r.n],"called":called.load(Ordering::SeqCst)});
+        drop(r);
+        log.ret(o, p);
+      }
+      50..=59 => {
+        let w = log.next_w.fetch_add(1, Ordering::SeqCst) + 1;
+        let o = log.call(th, json!({"op":"ins","api":"insert","h":h,"key":k,"wid":w,"cost":1,"ttl":0}));
+        if a {
+          block_on(ac.insert(k, Val { wid: w, n: 0 }, 1))
+        } else {
+          cache.insert(k, Val { wid: w, n: 0 }, 1)
+        }
+        log.ret(o, json!({}));
+      }
+      60..=69 => {
+        let o = log.call(th, json!({"op":"rem","api":"remove","h":h,"key":k}));
+        let r = if a { block_on(ac.remove(&k)) } else { cache.remove(&k) };
+        let p = json!({"hit":r.is_some(),"res":pairv(&r)});
+        drop(r);
+        log.ret(o, p);
+      }
+      _ => {
+        let api = ["get", "fetch", "peek"][rng.random_range(0..3)];
+        let o = log.call(th, json!({"op":"rd","api":api,"h":h,"key":k}));
+        let res = match (api, a) {
+          ("get", false) => cache.get(&k, |v| json!([v.wid, v.n])).unwrap_or(json!([0, 0])),
+          ("get", true) => block_on(ac.get(&k, |v| json!([v.wid, v.n]))).unwrap_or(json!([0, 0])),
+          ("fetch", false) => pairv(&cache.fetch(&k)),
+          ("fetch", true) => pairv(&block_on(ac.fetch(&k))),
+          (_, false) => pairv(&cache.peek(&k)),
+          (_, true) => pairv(&block_on(ac.peek(&k))),
+        };
+        log.ret(o, json!({"res":res}));
+      }
+    }
+  }
+}
+
+fn round(seed: u64, hid: usize, threads: usize, ops: usize) -> (Vec<String>, &'static str) {
+  let mut rng = StdRng::seed_from_u64(seed);
+  let keys: u32 = rng.random_range(1..=2);
+  let shards = [1usize, 2, 4][rng.random_range(0..3)];
+  clock_set_ms(crate::seq::T0);
+  let cache: C = CacheBuilder::<u32, Val, FixedState>::new()
+    .hasher(FixedState(rng.random()))
+    .shards(shards)
+    .janitor_tick_interval(Duration::from_millis(5))
+    .build()
+    .expect("build");
+  let log = Arc::new(Log { recs: Mutex::new(Vec::new()), next_o: AtomicU32::new(0), next_w: AtomicU32::new(0) });
+  let barrier = Arc::new(Barrier::new(threads + 1));
+  let stop = Arc::new(AtomicBool::new(false));
+  let mut hs = Vec::new();
+  for th in 0..threads {
+    let (c, l, b) = (cache.clone(), log.clone(), barrier.clone());
+    let s = rng.random();
+    hs.push(std::thread::spawn(move || {
+      b.wait();
+      let r = std::panic::catch_unwind(std::panic::AssertUnwindSafe(|| worker(c, l.clone(), th, s, keys, ops)));
+      if r.is_err() {
+        l.recs.lock().push(json!({"k":"panic","msg":"worker panicked"}));
+      }
+    }));
+  }
+  // maintenance runs alongside (nothing to evict or expire: it must not disturb anything)
+  let m = {
+    let (c, b, st) = (cache.clone(), barrier.clone(), stop.clone());
+    std::thread::spawn(move || {
+      b.wait();
+      while !st.load(Ordering::SeqCst) {
+        c.run_maintenance();
+        std::thread::yield_now();
+      }
+    })
+  };
+  let deadline = Instant::now() + Duration::from_secs(20);
+  let mut status = "ok";
+  for h in hs {
+    while !h.is_finished() && Instant::now() < deadline {
+      std::thread::sleep(Duration::from_micros(200));
+    }
+    if h.is_finished() {
+      let _ = h.join();
+    } else {
+      status = "hung";
+    }
+  }
+  stop.store(true, Ordering::SeqCst);
+  if status == "ok" {
+    let _ = m.join();
+    // quiescent final reads
+    for k in 1..=keys {
+      let o = log.call(99, json!({"op":"rd","api":"fetch","h":"s","key":k}));
+      let r = pairv(&cache.fetch(&k));
+      log.ret(o, json!({"res":r}));
+    }
+  }
+  let mut recs = std::mem::take(&mut *log.recs.lock());
+  if status == "hung" {
+    recs.push(json!({"k":"hung","what":"a worker did not finish"}));
+  }
+  // copy every result into its call record (prophecy field)
+  let mut results: HashMap<u64, Value> = HashMap::new();
+  for r in &recs {
+    if r["k"] == "ret" {
+      results.insert(r["o"].as_u64().unwrap(), r["p"].clone());
+    }
+  }
+  let mut out = vec![json!({"k":"new","kf":[],"hid":hid,"keys":keys,"shards":shards,"threads":threads,"profile":"stress","policy":"default",
+    "cap":0,"ttl":0,"tti":0,"grace":0,"tick":0,"t":crate::seq::T0,"seed":(seed % 1_000_000_000) as u32}).to_string()];
+  for mut r in recs {
+    if r["k"] == "call" {
+      let o = r["o"].as_u64().unwrap();
+      match results.get(&o) {
+        Some(p) => {
+          let m = r.as_object_mut().unwrap();
+          for (k, v) in p.as_object().unwrap() {
+            m.insert(k.clone(), v.clone());
+          }
+          m.insert("done".into(), json!(true));
+        }
+        None => {
+          r.as_object_mut().unwrap().insert("done".into(), json!(false));
+        }
+      }
+    } else if r["k"] == "ret" {
+      r.as_object_mut().unwrap().remove("p");
+    }
+    out.push(r.to_string());
+  }
+  out.push(json!({"k":"end"}).to_string());
+  (out, status)
+}
+
+pub fn run(m: &HashMap<String, String>) {
+  let get = |k: &str, d: u64| m.get(k).and_then(|v| v.parse().ok()).unwrap_or(d);
+  let seed = get("seed", 1);
+  let rounds = get("rounds", 20) as usize;
+  let threads = get("threads", 3) as usize;
+  let ops = get("ops", 6) as usize;
+  let outp = m.get("out").cloned().unwrap_or_else(|| "/dev/stdout".into());
+  let mut file = std::io::BufWriter::new(std::fs::File::create(&outp).expect("out file"));
+  let mut master = StdRng::seed_from_u64(seed);
+  std::panic::set_hook(Box::new(|_| {}));
+  let t0 = Instant::now();
+  let (mut records, mut hung) = (0usize, 0usize);
+  for i in 0..rounds {
+    let (recs, st) = round(master.random(), i, threads, ops);
+    if st == "hung" {
+      hung += 1;
+    }
+    records += recs.len();
+    for r in recs {
+      writeln!(file, "{}", r).unwrap();
+    }
+  }
+  file.flush().unwrap();
+  println!("{}", json!({"driver":"cache-stress","seed":seed,"histories":rounds,"threads":threads,"records":records,"hung":hung,
+    "wall_ms":t0.elapsed().as_millis() as u64}));
 }
